@@ -372,13 +372,17 @@ pub fn record_hops(out_path: &str, count: u64) {
             for (path, bytes, via_toml) in &frontier {
                 let from = *path.last().unwrap();
                 for to in FMTS {
-                    if path.len() >= 3 && rng.chance(2, 3) || model == "big" && (to == "toml" || (to == "yaml" && i != 5) || path.len() >= 3) {
+                    if path.len() >= 3 && i != 10 && rng.chance(2, 3) || model == "big" && (to == "toml" || (to == "yaml" && i != 5) || path.len() >= 3) {
                         continue;
                     }
                     // large documents meet every supply at every hop: a slice, a reader that fills whatever it is
                     // offered, one with 64 KiB reads; the others a slice or small random reads
                     let supplies: Vec<Option<Sched>> = if model == "big" {
                         vec![None, Some(Sched::All), Some(Sched::Fixed(65536))]
+                    } else if i == 10 {
+                        // the date-time document takes both supplies at every hop, the slice first (its output is the one
+                        // carried on): the pinned witness of the recorded finding json_toml_datetime_marker
+                        vec![None, Some(Sched::All)]
                     } else if rng.chance(1, 2) {
                         vec![Some(Sched::Random(Rng::new(rng.next()), 9))]
                     } else {
@@ -399,7 +403,9 @@ pub fn record_hops(out_path: &str, count: u64) {
                     p2.push(to);
                     // canonical-form uniqueness is claimed inside the common data model of the formats on the path
                     let canonical = model == "common4" || model == "big" || (model == "common3" && !p2.contains(&"toml"));
-                    let mut r = json!({"ev": "hop", "vid": vid, "path": p2, "to": to, "from": from, "hop": p2.len() - 1, "model": model, "canonical": canonical,
+                    // xt's own TOML output in which the toml crate's private date-time marker appears as an ordinary quoted key
+                    let class = if from == "toml" && bytes.windows(26).any(|w| w == b"\"$__toml_private_datetime\"") { "json_toml_datetime_marker" } else { "" };
+                    let mut r = json!({"ev": "hop", "vid": vid, "path": p2, "to": to, "from": from, "hop": p2.len() - 1, "model": model, "canonical": canonical, "class": class,
                                        "inDigest": format!("{:016x}:{}", fnv(bytes), bytes.len()), "res": res, "viaToml": vt, "outTree": tree,
                                        "outDigest": format!("{:016x}:{}", fnv(&out), out.len()), "msg": msg.chars().take(100).collect::<String>(),
                                        "input_hex": hex(&bytes[..bytes.len().min(400)])});
